@@ -40,6 +40,16 @@ CLAIMED = {
   text="Decides that the scanner's cursor invariant total == len(src)-len(input)+pos is preserved by every store in the package (closed set of shapes; anything else fails), that every advance after a look-behind match equals matched-length minus look-behind, that nested scanners start at input[pos:] and their consumed bytes are added back on every success path, that Stmt.Pos is total-len(text) and that the lint consumer indexes the same string. Position accuracy is exactly this invariant; a shape rule decides it for all inputs where a test compares statement texts only.",
   note="Not decided: termination/totality on arbitrary bytes, losslessness beyond the cursor invariant, regexp semantics. Shapes other than the canonical ones are reported as not recognised (fail) rather than guessed. ",
   ref="DESIGN.md §3 C08"),
+ "C13": dict(
+  technique="static analysis: abstract interpretation of migrateApplyRun + the tx multiplexer over a finite typestate domain (all paths, all tx-mode × directive sequences × dry-run enumerated) + go/cfg guard-dominance rules for dry-run and schema apply",
+  text="Decides, for every tx-mode, every sequence of per-file txmode directives up to the bound and every outcome of open/execute/commit/rollback, that the transaction events on every path of the real source follow the documented semantics of each file's effective mode (file: committed right after each file, rolled back on failure; all: one commit at the end, none after an error; none: outside any transaction; dry-run: no transaction; the executor's driver and revision writer belong to the same open transaction). Also decides dry-run dominance (wrappers returned first, mutating methods overridden, executor rebuilt from driverFor's pair) and that schema apply is transactional unless txMode is none, rolls back on error, and is guarded by !dryRun/autoApprove. Failure atomicity per mode is a typestate property of a small state machine spread over six functions; interpreting their source over the finite domain covers every failure position where a test covers one.",
+  note="Not decided: what ROLLBACK/COMMIT do on an engine, equality of database states. Two genuine dry-run defects are recorded as known findings (D7a/D7b). Directive sequences are bounded (2 quick / 3 thorough); the multiplexer keeps no state beyond the current transaction and file mode, so longer sequences revisit the same abstract states. ",
+  ref="DESIGN.md §3 C13"),
+ "C19": dict(
+  technique="static analysis: SSA change-kind flow analysis (taint-style may-analysis with function summaries to a fixpoint, sanitiser = DiffOptions.AddOrSkip) + policy-table agreement + go/cfg return-through-Exclude and def-use rules",
+  text="Decides for all schemas and all skip policies that no skippable change kind can reach a differ result or a nested Changes field without passing the skip filter (clause 2 of the property in full), that the CLI policy fields and the prototype list agree, that every inspector hands out results only through ExcludeRealm/ExcludeSchema with the option's patterns, that the exclusion loops apply every pattern to every resource and keep unmatched resources unconditionally, and that no pattern error is overwritten unread.",
+  note="Not decided: glob and [type=…] selector matching semantics; that excluded resources referenced by kept ones (foreign keys to excluded tables) are handled. Reflection in Skipped/Options is modelled by hand (type identity). ",
+  ref="DESIGN.md §3 C19"),
 }
 
 NA = {}
